@@ -15,14 +15,64 @@ Record cinfo := mkCinfo {
   ci_threads : list (sbytes * list dmetric)
 }.
 
+(* the recorded inputs of the transport thread: as [event], but a wake-up carries the inputs of
+   convert_metric_to_protobuf_encoded (as logged before encoding) next to the frames it produced
+   (as logged after encoding) *)
+Inductive cevent :=
+| CWake (metas : list meta_item) (items : list mitem) (logged : list frame) (ws : list (token * list wres))
+| CAccept (order : list bytes)
+| CWritable (t : token) (ws : list wres).
+
+(* the wall-clock timestamp inside a logged metric frame (an input of the model: SystemTime::now()) *)
+Definition int_field (f : N) (l : list (N * wv)) : N :=
+  match last_field f l with Some (VInt n) => n | _ => 0 end.
+Definition ts_of (f : frame) : N * N :=
+  match split_frames f with
+  | ([b], []) =>
+    match fields b with
+    | Some [(2, VLen m)] =>
+      match fields m with
+      | Some l => match str_field 2 l with
+                  | Some t => match fields t with Some tl => (int_field 1 tl, int_field 2 tl) | None => (0, 0) end
+                  | None => (0, 0)
+                  end
+      | None => (0, 0)
+      end
+    | _ => (0, 0)
+    end
+  | _ => (0, 0)
+  end.
+
+Fixpoint enc_items (items : list mitem) (logged : list frame) : list frame :=
+  match items with
+  | [] => []
+  | i :: r =>
+    let '(secs, nanos) := ts_of (hd [] logged) in
+    enc_metric i secs nanos :: enc_items r (tl logged)
+  end.
+
+Definition to_event (e : cevent) : event :=
+  match e with
+  | CWake metas items logged ws => EWake metas (enc_items items logged) ws
+  | CAccept order => EAccept order
+  | CWritable t ws => EWritable t ws
+  end.
+
 (* a recorded scenario: configuration, the transport thread's inputs in program order, the
    tokens for which the exporter reported discarding queued messages, the clients *)
 Record case := mkCase {
   c_limit : option N;
-  c_events : list event;
+  c_cevents : list cevent;
   c_drops : list token;
   c_clients : list cinfo
 }.
+Definition c_events (c : case) : list event := map to_event (c_cevents c).
+
+(* the model's encoding of every metric equals, byte for byte, what the exporter produced *)
+Definition encodings_agree (c : case) : bool :=
+  forallb (fun e => match e with
+                    | CWake _ items logged _ => list_eqb sb_eqb (enc_items items logged) logged
+                    | _ => true end) (c_cevents c).
 
 Record OUT := mkOut {
   o_served : bool;                 (* the transport thread reached its loop and accepted every client *)
@@ -41,6 +91,9 @@ Definition find_client (s : state) (t : token) : option client :=
 Definition flushed (c : client) : bool :=
   match wbuf c, msgs c with None, [] => true | _, _ => false end.
 
+Definition model_client (sf : state) (i : cinfo) : option client :=
+  match ci_tok i with Some t => find_client sf t | None => None end.
+
 Definition run_case_with (fixed : fixes) (c : case) : OUT :=
   match init fixed (c_limit c) with
   | Panicked => mkOut false false false [] []
@@ -48,7 +101,7 @@ Definition run_case_with (fixed : fixes) (c : case) : OUT :=
     match run fixed (c_limit c) s0 (c_events c) with
     | None => mkOut true false true [] []
     | Some (sf, obs) =>
-      let cl i := match ci_tok i with Some t => find_client sf t | None => None end in
+      let cl := model_client sf in
       mkOut true
             (forallb (fun i => negb (ci_stay i) || match cl i with Some k => flushed k | None => false end)
                      (c_clients c))
@@ -78,9 +131,19 @@ Fixpoint streams_agree (cs : list cinfo) (m o : list bytes) : bool :=
 Definition obs_eqb (a b : Z * Z * bool) : bool :=
   let '(n, c, s) := a in let '(n', c', s') := b in (n =? n')%Z && (c =? c')%Z && Bool.eqb s s'.
 
+(* the model discards queued messages for exactly the clients for which the exporter said so *)
+Definition drops_agree (c : case) : bool :=
+  match run fixed (c_limit c) st0 (c_events c) with
+  | Some (sf, _) =>
+    forallb (fun i => match ci_tok i, model_client sf i with
+                      | Some t, Some k => Bool.eqb (overflowed k) (existsb (N.eqb t) (c_drops c))
+                      | _, _ => true end) (c_clients c)
+  | None => true
+  end.
+
 (* model output [m] against observed output [o] *)
 Definition agree (c : case) (m o : OUT) : bool :=
-  negb (o_stuck m) && Bool.eqb (o_served m) (o_served o) &&
+  negb (o_stuck m) && Bool.eqb (o_served m) (o_served o) && encodings_agree c && drops_agree c &&
   (if o_served o then
      implb (o_quiet o) (o_quiet m) && list_eqb obs_eqb (o_obs m) (o_obs o) &&
      streams_agree (c_clients c) (o_streams m) (o_streams o)
